@@ -237,8 +237,13 @@ func checkFiles[F any](files []F, fio FileIO[F]) (cf CheckedFiles, validFiles []
 	// These directories will not be included in the output zip.
 	haveCUEMod := make(map[string]bool)
 	for _, f := range files {
-		if dir, rest := splitCUEMod(fio.Path(f)); rest != "" {
+		for p := fio.Path(f); p != ""; {
+			dir, rest := splitCUEMod(p)
+			if rest == "" {
+				break
+			}
 			haveCUEMod[dir] = true
+			p = strings.TrimSuffix(dir, "/")
 		}
 	}
 
@@ -295,7 +300,7 @@ func checkFiles[F any](files []F, fio FileIO[F]) (cf CheckedFiles, validFiles []
 			addError(p, true, errHgArchivalTxt)
 			continue
 		}
-		if p == "cue.mod/local-module.cue" {
+		if strings.EqualFold(p, "cue.mod/local-module.cue") {
 			// Development-time configuration (such as module replaces)
 			// that is never part of a published module.
 			addError(p, true, errLocalModule)
@@ -467,7 +472,7 @@ func CheckZip(m module.Version, r io.ReaderAt, zipSize int64) (*zip.Reader, *zip
 			addError(zf, err)
 			continue
 		}
-		if name == "cue.mod/local-module.cue" {
+		if strings.EqualFold(name, "cue.mod/local-module.cue") {
 			// Development-time configuration (such as module replaces)
 			// is never part of a published module. Create omits it when
 			// building a zip, so a zip that still contains it (for example
@@ -487,17 +492,21 @@ func CheckZip(m module.Version, r io.ReaderAt, zipSize int64) (*zip.Reader, *zip
 				addError(zf, fmt.Errorf("cue.mod not in module root directory"))
 				continue
 			}
-			if !strings.Contains(rest, "/") {
+			if !strings.Contains(rest, "/") && !isDir {
 				addError(zf, fmt.Errorf("cue.mod is not a directory"))
 				continue
 			}
-			if !strings.HasPrefix(rest, "cue.mod/") {
+			if rest != "cue.mod" && !strings.HasPrefix(rest, "cue.mod/") {
 				addError(zf, errCUEModCase)
 				continue
 			}
 			if strings.EqualFold(rest, "cue.mod/module.cue") {
 				if rest != "cue.mod/module.cue" {
 					addError(zf, errCUEModuleCase)
+					continue
+				}
+				if isDir {
+					addError(zf, fmt.Errorf("cue.mod/module.cue is a directory"))
 					continue
 				}
 				modFile = zf
